@@ -32,6 +32,10 @@ pub struct Case {
 fn gen_case(cs: u64) -> Case {
     let mut r = Rng::new(cs);
     let program = gen_program(&mut r, &GenProgOpts { max_pages: 4, tricky_text: true, images: true, big_images: false, rich: true, tricky_names: false });
+    let mut program = program;
+    if r.chance(1, 25) {
+        add_many_pages(&mut r, &mut program);
+    }
     let cfgs = all_configs();
     let mut cfg = cfgs[r.usize_below(cfgs.len())].clone();
     if cfg.object_streams && !r.chance(1, 4) {
@@ -106,6 +110,33 @@ fn exec_inner(c: &Case, out: &mut Outcome) {
             if got.as_deref() != Some(t.as_bytes()) {
                 out.violate("authored-vs-readback:metadata-differs", format!("authored ASCII title {:?}, read back {:?}", t, got.map(|b| String::from_utf8_lossy(&b).to_string())));
                 return;
+            }
+        }
+        // painting calls: effective fill colour / stroke colour / line width at every path-painting
+        // operator of the content read back, against the graphics-state model of the program
+        let want = crate::paint::expected(&c.program);
+        for (i, (w, p)) in want.iter().zip(baseline.pages.iter()).enumerate() {
+            match crate::paint::interpret(&p.content) {
+                Err(e) => {
+                    out.violate("authored-vs-readback:content-does-not-tokenize", format!("page {}: {}", i, e));
+                    return;
+                }
+                Ok(got) => {
+                    if got.len() != w.len() {
+                        out.violate("authored-vs-readback:paint-count-differs", format!("page {}: the program paints {} paths, the content read back paints {}", i, w.len(), got.len()));
+                        return;
+                    }
+                    for (k, (a, b)) in w.iter().zip(got.iter()).enumerate() {
+                        if !a.agrees(b) {
+                            out.violate(
+                                "authored-vs-readback:paint-state-differs",
+                                format!("page {} painting call #{}: authored {:?}, but the content stream read back paints with {:?}", i, k, a, b),
+                            );
+                            return;
+                        }
+                    }
+                    out.bump("probe.paint_events_checked", got.len() as u64);
+                }
             }
         }
         out.bump("probe.authored_truth_checked", 1);
